@@ -132,6 +132,7 @@ func runScenarioWith(sc scn, seed int64, f *fault, readTimeout time.Duration, ba
 	out.cancel = cancel
 	defer cancel()
 	var client *ch.Client
+	var foreign sync.WaitGroup
 	exc := []ref.Exception{{Code: 241, Name: "DB::Exception", Message: "Memory limit exceeded (injected)", Stack: "stack"}, {Code: 999, Name: "DB::Nested", Message: "cause", Stack: ""}}
 
 	fire := func(g string) {
@@ -148,7 +149,8 @@ func runScenarioWith(sc scn, seed int64, f *fault, readTimeout time.Duration, ba
 			cancel()
 		case "foreign-close":
 			if client != nil {
-				go func() { _ = client.Close() }()
+				foreign.Add(1)
+				go func() { defer foreign.Done(); _ = client.Close() }()
 			}
 		case "drop-connection":
 			sim.Conn.DropQueuedAfterCurrent()
@@ -345,6 +347,15 @@ func runScenarioWith(sc scn, seed int64, f *fault, readTimeout time.Duration, ba
 	})
 	out.ReturnWall = time.Now()
 	out.Elapsed = time.Since(start)
+	if out.Returned {
+		foreign.Wait()
+	}
+	// freeze the traces: late hook calls (e.g. a Close by the caller) must not touch them
+	ch.VerifSetHook(nil)
+	mu.Lock()
+	out.Gates = append([]string(nil), out.Gates...)
+	out.Hooks = append([]string(nil), out.Hooks...)
+	mu.Unlock()
 	out.WrittenAtReturn = sim.Conn.WrittenBytes()
 	out.PendingAtReturn = len(sim.Srv.Pending())
 	out.SrvErrAtReturn = sim.Srv.Err
